@@ -29,7 +29,7 @@ ALL_PROPS = ['C%02d' % i for i in range(1, 18)]
 # obligation, (ii) the thorough tier's randomized exploration, (iii) the bounded stand-in when a function is out of the
 # verifier's reach
 ORACLES = {'C01': ['solvency'], 'C02': ['settlement', 'solvency'], 'C03': ['match_eligibility'],
-           'C04': ['solvency', 'exit_liveness'], 'C05': ['authorization'], 'C06': ['exit_liveness'], 'C07': ['admission'],
+           'C04': ['solvency', 'exit_liveness'], 'C05': ['authorization', 'config_change'], 'C06': ['exit_liveness'], 'C07': ['admission'],
            'C08': ['approver_tracks_size'], 'C09': ['solvency', 'settlement'], 'C10': ['mechanism'],
            'C11': ['bid_consistency', 'ask_consistency'], 'C12': ['config_change'], 'C13': ['instantiate_coherence'],
            'C14': ['migration'], 'C15': ['migration'], 'C16': ['queries'], 'C17': ['attributes']}
@@ -236,7 +236,7 @@ def trusted_base_list(text):
 
 ASSUMPTION_IDS = [
     'A-VERUS: Verus 0.2026.09.13 + Z3 are sound',
-    'A-EXTRACT: the mechanical rewrites R1-R17 / drops D-a..D-f of DESIGN.md section 4 preserve semantics (counts in coverage.extraction)',
+    'A-EXTRACT: the mechanical rewrites R1-R18 / drops D-a..D-f of DESIGN.md section 4 preserve semantics (counts in coverage.extraction)',
     'A-ROLLBACK: a request that returns Err or aborts leaves no state or balance change (chain semantics); all safety clauses are phrased on Ok',
     'A-CHAIN: the chain executes each message of an Ok response exactly once and credits attached funds before execute',
     'A-STORE: cw-storage-plus save/load/remove/update/is_empty as specified in shim (namespaces disjoint, keys are raw id bytes)',
@@ -445,6 +445,13 @@ def downgrade_uncontracted(failures, report, lm, text):
             g['kind'] = 'uncontracted-callee'
             g['message'] = 'calls %s, which has no contract in /verif/contracts; %s' % (', '.join(hit), f['message'])
             down.append(g)
+        elif '/*R18 inlined' in body:
+            # (c) the function carries the inlined body of an un-contracted helper (rule R18): a proof that goes through
+            # counts, a proof that fails may fail for lack of specifications on what the helper uses - undecided
+            g = dict(f)
+            g['kind'] = 'uncontracted-callee'
+            g['message'] = 'carries the inlined body of an un-contracted helper (R18); %s' % f['message']
+            down.append(g)
         elif cache[key]:
             g = dict(f)
             g['kind'] = 'unannotated-closure'
@@ -604,6 +611,12 @@ def finish(prop, tier, seed, results, t_start, extra=None):
                                       % (mode, q, why[:160]))
                 out_of_reach.append(q)
         per_mode_unx = r['report'].get('unextractable') or {}
+        wp = r['report'].get('wire_premise_changed') or []
+        if wp and mode == 'lenient':
+            undecided_msgs.append('the wire format of a repository type changed (serde attribute / Serialize, Deserialize, PartialEq, '
+                                  'Clone derive) against the baseline the assumptions A-SERDE / A-DERIVE were audited with: %s; '
+                                  'the proofs model storage as typed values and do not see the byte format' % '; '.join(wp[:4]))
+            out_of_reach.append('<persisted / message formats>')
         if r['compile_errors']:
             undecided_msgs.append('%s: the generated file does not compile / uses an unsupported construct: %s'
                                   % (mode, r['compile_errors'][0]['message'][:300]))
@@ -757,6 +770,26 @@ def finish(prop, tier, seed, results, t_start, extra=None):
         for m in undecided_msgs[:10]:
             log('UNDECIDED property=%s: %s' % (prop, m))
         return 2
+    # every obligation carrying this property is discharged. If obligations of OTHER properties failed on this tree (the
+    # code changed and broke something), additionally explore the real code with this property's oracle: the clause ->
+    # property tags are a hand-made dependency cone and a change may reach this property through a clause not tagged
+    # with it. A failing history is a real violation; finding none leaves the proof's verdict (OK) in place.
+    foreign = sorted(set(f.get('label') or '?' for r in results.values() for f in r['failures']))
+    if foreign and ORACLES.get(prop) and not os.environ.get('VERIF_NO_WITNESS'):
+        rdir = os.path.join(VERIF, 'replays', prop)
+        hits, runs, note = run_searches(prop, seed or 1, 2500 if tier == 'quick' else 10000, rdir, 'extra')
+        ev['coverage']['extra_exploration'] = {'why': 'obligations of other properties fail on this tree: %s' % ', '.join(foreign[:6]),
+                                               'kind': 'randomized search on the real code, not proof', 'summary': note, 'runs': runs}
+        ev['violations'] = len(hits)
+        json.dump(ev, open(os.path.join(EVIDENCE_DIR, '%s.json' % prop), 'w'), indent=1)
+        if hits:
+            path = os.path.join(rdir, 'extra_exploration.json')
+            json.dump({'property': prop, 'failed_obligation': None, 'mode': 'exploration of the real code (other obligations fail on this tree)',
+                       'functions_out_of_reach': [], 'failed_obligations_of_other_properties': foreign[:20],
+                       'witness_history': hits[0][0], 'witness_note': hits[0][1],
+                       'how_to_replay': './check %s --replay %s' % (prop, path)}, open(path, 'w'), indent=1)
+            log('VIOLATION property=%s replay=%s' % (prop, path))
+            return 1
     log('OK property=%s tier=%s obligations=%d discharged=%d wall=%.1fs' % (prop, tier, obligations, discharged, wall))
     return 0
 
